@@ -1937,8 +1937,18 @@ def ob_majorizes(la, lb, as_list=False, margin=1e-6, B=1000):
         if la != lb:   # zero padding is only meaningful for non-negative vectors (probability / singular-value vectors)
             cs += [v >= 0 for v in list(O(i["a"])) + list(O(i["b"]))]
         return cs
+    def witness():
+        # clear-margin instances on both sides of the verdict (the monomial abstraction of ||a|| can make the solver's own model
+        # spurious: these realise the candidates): largest entry of b above / below the largest entry of a
+        desc = [0.5, 0.25, 0.125, 0.0625, 0.03125]
+        out = []
+        for top_b in (0.625, 0.375):
+            a = np.array(desc[:la])
+            c = np.array([top_b] + [0.0625] * (lb - 1))
+            out += [{"a": a, "b": c}, {"a": a[::-1].copy(), "b": c[::-1].copy()}]
+        return out
     return Obligation("majorizes.weak_majorisation_by_partial_sums_of_largest_entries", cfg, build, call, oracle, post=band_post,
-                      neg=band_neg, assume=pre, valid=mk_valid(pre), max_paths=4000, weight=30 if n >= 3 else 2, wall_cap_s=900)
+                      neg=band_neg, assume=pre, valid=mk_valid(pre), max_paths=4000, weight=30 if n >= 3 else 2, wall_cap_s=900, witness=witness)
 
 
 def ob_majorizes_matrices(sa, sb_, margin=1e-6, B=1000):
@@ -2172,8 +2182,8 @@ def obligations(tier):
     for dim, ngen, k in [(2, 0, 2), (2, 1, 2), (2, 2, 1), (3, 0, 3), (3, 2, 1), (2, 3, 2)] + ([(3, 1, 5), (4, 0, 4), (4, 2, 2)] if T else []):
         for kind in ("r", "c"):
             obs.append(ob_commutant(dim, ngen, kind, k))
-    for la, lb, as_list in [(1, 1, False), (2, 2, False), (2, 2, True), (1, 2, False), (2, 1, False)] + \
-            ([(3, 3, False), (2, 3, False), (3, 2, True)] if T else []):
+    for la, lb, as_list in [(1, 1, False), (2, 2, False), (2, 2, True), (1, 2, False), (2, 1, False), (2, 1, True)] + \
+            ([(3, 3, False), (2, 3, False), (3, 2, True), (3, 1, False)] if T else []):
         obs.append(ob_majorizes(la, lb, as_list))
     for sa, sb_ in [((2, 2), (2, 2)), ((2, 3), (3, 2)), ((2, 2), (3, 3)), ((1, 2), (2, 2))]:
         obs.append(ob_majorizes_matrices(sa, sb_))
